@@ -15,7 +15,7 @@ type vhLine struct {
 	desc    string
 }
 
-var vhJsons = []string{`{}`, `{a:1}`, `{s:"})"}`}
+var vhJsons = []string{`{}`, `{a:1}`, `{s:"})"}`, `{s:"}) x", n:{a:1}}`}
 
 func vhTrimSpaces(s string) string {
 	i, j := 0, len(s)
@@ -148,6 +148,11 @@ func vhC16(nLines int, b vhBounds) {
 			case 2:
 				v, ok := a.Properties["s"].(string)
 				symxAssert(len(a.Properties) == 1 && ok && v == "})", "C16.props")
+			case 3:
+				// a string value with the closing sequence followed by a blank, and a nested object after it
+				v, ok := a.Properties["s"].(string)
+				n, okN := a.Properties["n"].(map[string]any)
+				symxAssert(len(a.Properties) == 2 && ok && v == "}) x" && okN && len(n) == 1, "C16.props")
 			}
 		} else {
 			symxAssert(len(a.Properties) == 0, "C16.no-props")
@@ -188,7 +193,7 @@ func vhC16(nLines int, b vhBounds) {
 
 // one attribute line, rich description (the regex must not split the line differently from how it was written)
 func vh_C16_line_desc_Q() {
-	vhC16(1, vhBounds{freeAlphabet: "a ", freeMax: 2, nameMax: 1, valueAlphabet: "a}", valueMax: 1, descAlphabet: "a )},{", descMax: 4, jsons: 3})
+	vhC16(1, vhBounds{freeAlphabet: "a ", freeMax: 2, nameMax: 1, valueAlphabet: "a}", valueMax: 1, descAlphabet: "a )},{", descMax: 4, jsons: 4})
 }
 
 // one attribute line, rich value
@@ -214,7 +219,7 @@ func vh_C14_annotations_Q() {
 
 // thorough tier
 func vh_C16_line_desc_T() {
-	vhC16(1, vhBounds{freeAlphabet: "a /", freeMax: 3, nameMax: 2, valueAlphabet: "a}", valueMax: 2, descAlphabet: "a )},{", descMax: 5, jsons: 3})
+	vhC16(1, vhBounds{freeAlphabet: "a /", freeMax: 3, nameMax: 2, valueAlphabet: "a}", valueMax: 2, descAlphabet: "a )},{", descMax: 5, jsons: 4})
 }
 func vh_C16_freetext_T() {
 	vhC16(3, vhBounds{freeAlphabet: "a /", freeMax: 4, nameMax: 1, valueAlphabet: "a", valueMax: 1, descAlphabet: "a", descMax: 1, jsons: 1})
